@@ -184,6 +184,12 @@ class P:
                 stmts.append(("let", pat, e))
                 continue
             e = self.expr()
+            if self.peek()[0] == "op" and self.peek()[1] in ("=", "+=", "-="):
+                op = self.next()[1]
+                rhs = self.expr()
+                self.expect(";")
+                stmts.append(("expr", ("assign", op, e, rhs)))
+                continue
             if self.eat(";"):
                 stmts.append(("expr", e))
             elif self.at("}"):
@@ -386,6 +392,9 @@ class P:
         if v == "loop":
             self.next()
             return ("loop", self.block())
+        if v == "break":
+            self.next()
+            return ("break",)
         if v == "return":
             self.next()
             if self.at(";") or self.at("}"):
@@ -482,6 +491,9 @@ def src_text(e):
     return "?"
 
 
+NOARG_STRUCTS = {"CompleteOnUnwind"}
+
+
 class Emitter:
     def __init__(self, ns, own_fns, recv, consts):
         self.ns = ns              # Lean namespace of `self`'s generated functions
@@ -495,6 +507,10 @@ class Emitter:
     def fresh(self):
         self.n += 1
         return "t%d" % self.n
+
+    def gen_call(self, fn):
+        """a call of `fn`: generated functions of the program-tree target take the loop fuel first"""
+        return fn
 
     def unsup(self, what):
         self.unsupported.append(what)
@@ -555,6 +571,8 @@ class Emitter:
             sname = e[1][-1]
             if sname == "Self":
                 sname = self.self_struct or "Self"
+            if sname in NOARG_STRUCTS:
+                return ls, "({ %s } : %s)" % (", ".join(fs), sname)
             return ls, "({ %s } : %s _)" % (", ".join(fs), sname)
         if k == "bin":
             l1, a = self.ex(e[2], ind)
@@ -621,6 +639,7 @@ class Emitter:
                 fn = "Counter.%s" % lid(name)      # the only object with these methods is the crate's AtomicCounter
             else:
                 fn = "m_" + name
+            fn = self.gen_call(fn)
             return ls + ["let %s ← %s %s" % (t, fn, " ".join([r] + atoms))], t
         if k == "block":
             t = self.fresh()
@@ -717,6 +736,176 @@ class Emitter:
         return "(do\n" + "\n".join(pad + l for l in lines) + ")"
 
 
+
+def ids_in(e, acc):
+    """identifiers occurring in an AST"""
+    if isinstance(e, tuple):
+        if len(e) == 2 and e[0] == "id":
+            acc.add(e[1])
+        for x in e:
+            ids_in(x, acc)
+    elif isinstance(e, list):
+        for x in e:
+            ids_in(x, acc)
+    return acc
+
+
+def has_node(e, kind):
+    if isinstance(e, tuple):
+        if e and e[0] == kind:
+            return True
+        return any(has_node(x, kind) for x in e)
+    if isinstance(e, list):
+        return any(has_node(x, kind) for x in e)
+    return False
+
+
+def pat_vars(p, acc):
+    if p[0] == "pvar":
+        acc.append(p[1])
+    elif p[0] == "ptuple":
+        for x in p[1]:
+            pat_vars(x, acc)
+    elif p[0] == "pctor":
+        for x in p[2]:
+            pat_vars(x, acc)
+    return acc
+
+
+class PEmitter(Emitter):
+    """emitter for the program-tree target (`Orx/RS/Prog.lean`): `loop`, `return`, `break`, assignments, drop guards"""
+
+    def __init__(self, ns, own_fns, recv, consts, fname, scope, let_types):
+        super().__init__(ns, own_fns, recv, consts)
+        self.fname = fname
+        self.scope = list(scope)          # [(name, lean type)] in scope
+        self.let_types = let_types        # types of `let`-bound names that are not `Nat`
+        self.hoisted = []                 # [(name, text)] loop bodies, as definitions of their own
+        self.nloops = 0
+
+    def gen_call(self, fn):
+        return fn if fn.startswith("m_") else fn + " fuel"
+
+    def bind(self, name):
+        self.scope.append((name, self.let_types.get(name, "Nat")))
+
+    def ex(self, e, ind):
+        k = e[0]
+        if k == "str":
+            return [], e[1]
+        if k == "return":
+            ls, a = self.ex(e[1], ind) if e[1] is not None else ([], "()")
+            t = self.fresh()
+            return ls + ["let %s ← (m_return %s : PF _ Unit)" % (t, a)], "()"
+        if k == "break":
+            t = self.fresh()
+            return ["let %s ← (m_break : PF _ Unit)" % t], "()"
+        if k == "assign":
+            op, lhs, rhs = e[1], e[2], e[3]
+            ls, a = self.ex(rhs, ind)
+            if lhs == ("id", "_") and op == "=":
+                return ls, "()"
+            if lhs[0] == "field" and lhs[1][0] == "id" and op == "=":
+                obj = lid(lhs[1][1])
+                return ls + ["let %s := { %s with %s := %s }" % (obj, obj, lid(lhs[2]), a)], "()"
+            return ls + ["let _ ← %s" % self.unsup("assignment " + op)], "()"
+        if k == "loop":
+            self.nloops += 1
+            name = "%s.%s.loop%d" % (self.ns, lid(self.fname), self.nloops)
+            used = ids_in(e[1], set())
+            params = [(n, ty) for (n, ty) in self.scope if n in used]
+            sub_scope = len(self.scope)
+            body = self.do_block(e[1], 2)
+            del self.scope[sub_scope:]
+            sig = " (fuel : Nat)" + "".join(" (%s : %s)" % (lid(n), ty) for (n, ty) in params)
+            if has_node(e[1], "return"):
+                text = "/-- the body of `loop {}` number %d of `%s::%s` -/\ndef %s%s :=\n  (%s : PF _ Unit)\n" % (self.nloops, self.ns, self.fname, name, sig, body)
+            else:
+                text = "/-- the body of `loop {}` number %d of `%s::%s` -/\ndef %s {ρ : Type}%s : PF ρ Unit :=\n  %s\n" % (self.nloops, self.ns, self.fname, name, sig, body)
+            self.hoisted.append((name, text))
+            t = self.fresh()
+            return ["let %s ← m_loop fuel (%s fuel%s)" % (t, name, "".join(" " + lid(n) for (n, _) in params))], "()"
+        if k == "closure":
+            sub_scope = len(self.scope)
+            for p in e[1]:
+                for v in pat_vars(p, []):
+                    self.bind(v)
+            out = super().ex(e, ind)
+            del self.scope[sub_scope:]
+            return out
+        return super().ex(e, ind)
+
+    def do_block(self, e, ind):
+        if e[0] != "block":
+            return super().do_block(e, ind)
+        pad = " " * ind
+        lines = []
+        sub_scope = len(self.scope)
+        stmts = list(e[1])
+        i = 0
+        while i < len(stmts):
+            st = stmts[i]
+            # `let g = x.complete_on_unwind(); ...; g.disarm();`: the statements in between run under the guard
+            if st[0] == "let" and st[1][0] == "pvar" and st[2][0] == "mcall" and st[2][2] == "complete_on_unwind":
+                g = st[1][1]
+                j = next((m for m in range(i + 1, len(stmts))
+                          if stmts[m] == ("expr", ("mcall", ("id", g), "disarm", []))), None)
+                if j is None:
+                    lines.append("let _ ← %s" % self.unsup("drop guard without disarm in the same block"))
+                    i += 1
+                    continue
+                ls, a = self.ex(st[2], ind)
+                lines += ls
+                lines.append("let %s := %s" % (lid(g), a))
+                self.scope.append((g, "CompleteOnUnwind"))
+                inner = ("block", stmts[i + 1:j], None)
+                bound = []
+                for s2 in stmts[i + 1:j]:
+                    if s2[0] == "let":
+                        pat_vars(s2[1], bound)
+                mark = len(self.scope)
+                body = self.do_block(inner, ind + 2)
+                del self.scope[mark:]
+                tup = "(" + ", ".join(lid(v) for v in bound) + ")" if len(bound) != 1 else lid(bound[0])
+                body = body[:-len("pure ())")] + "pure %s)" % (tup if bound else "()")
+                t = self.fresh()
+                lines.append("let %s ← m_guarded (Guard.drop fuel %s) %s" % (tup if bound else t, lid(g), body))
+                for v in bound:
+                    self.bind(v)
+                t2 = self.fresh()
+                lines.append("let %s ← Guard.disarm fuel %s" % (t2, lid(g)))
+                i = j + 1
+                continue
+            if st[0] == "let":
+                ls, a = self.ex(st[2], ind)
+                lines += ls
+                if st[1][0] == "pvar":
+                    lines.append("let %s := %s" % (lid(st[1][1]), a))
+                elif st[1][0] == "pwild":
+                    lines.append("let _ := %s" % a)
+                else:
+                    lines.append("let %s := %s" % (self.pat(st[1]), a))
+                for v in pat_vars(st[1], []):
+                    self.bind(v)
+            else:
+                ls, a = self.ex(st[1], ind)
+                lines += ls
+            i += 1
+        if e[2] is None:
+            lines.append("pure ()")
+        elif e[2][0] == "loop" and not has_node(e[2][1], "break"):
+            # a `loop {}` without `break` has type `!`: nothing follows it
+            ls, a = self.ex(e[2], ind)
+            lines += ls
+            lines.append("m_unreachable")
+        else:
+            ls, a = self.ex(e[2], ind)
+            lines += ls
+            lines.append("pure %s" % a)
+        del self.scope[sub_scope:]
+        return "(do\n" + "\n".join(pad + l for l in lines) + ")"
+
+
 # ---------------------------------------------------------------------------------------------------
 # targets
 
@@ -793,6 +982,71 @@ for (k, b) in (("Slice", "BufSlice"), ("Vec", "BufVec"), ("Arr", "BufArr"), ("Ra
                      consts=(["N"] if k == "Arr" else [])))
 TARGETS.append(T("BufferedIterNew", "iter/buffered/buffered_iter.rs", r"impl<'a, T, B> BufferedIter", ["new"], None,
                  params={"buffered_iter": "BufSelf", "atomic_iter": "Unit"}, recv={"buffered_iter": "BufAny"}))
+
+
+# the ticket protocol of the wrapper, translated to program trees (Orx/RS/Prog.lean); `lets`: `let`-bound names that are not `Nat`
+IT = "iter/implementors/iter.rs"
+PTARGETS = [
+    dict(ns="Counter", file="iter/atomic_counter.rs", impl=r"impl AtomicCounter", fns=["fetch_and_add", "fetch_and_increment", "current"], self_ty="CounterSelf"),
+    dict(ns="Guard", file=IT, impl=r"impl Drop for CompleteOnUnwind", fns=["drop"], self_ty="CompleteOnUnwind"),
+    dict(ns="Guard", file=IT, impl=r"impl CompleteOnUnwind", fns=["disarm"], self_ty="CompleteOnUnwind", drop_self=True),
+    dict(ns="Iter", file=IT, impl=r"impl<T: Send \+ Sync, Iter> ConIterOfIter", fns=["mut_iter", "progress_yielded_counter", "mark_completed", "complete_on_unwind"], self_ty="IterSelf"),
+    dict(ns="Iter", file=IT, impl=r"AtomicIter<T> for ConIterOfIter", fns=["counter", "progress_and_get_begin_idx", "get", "fetch_n", "early_exit"], self_ty="IterSelf"),
+    dict(ns="Iter", file="iter/atomic_iter.rs", impl=r"trait AtomicIter<", fns=["fetch_one"], self_ty="IterSelf"),
+    dict(ns="Iter", file=IT, impl=r"ConcurrentIter for ConIterOfIter", fns=["next_id_and_value", "next_chunk", "skip_to_end"], self_ty="IterSelf"),
+]
+P_OUT = os.path.join(os.path.dirname(OUT), "ProtoIter.lean")
+
+
+def main_prog():
+    """second pass: the blocking functions of `ConIterOfIter` as program trees -> Generated/ProtoIter.lean"""
+    nsf = {}
+    for t in PTARGETS:
+        nsf.setdefault(t["ns"], set()).update(t["fns"])
+    chunks, report = [], []
+    for t in PTARGETS:
+        text = strip_comments(open(os.path.join(SRC, t["file"])).read())
+        for fn in t["fns"]:
+            params, body = find_fn(text, t["impl"], fn)
+            has_self, plist = param_list(params, t.get("params", {}))
+            ast = P(tokenize(body) + [("eof", "")]).block()
+            if t.get("drop_self"):
+                # the function takes `self` by value: it is dropped when the function returns
+                ast = ("block", ast[1] + ([("expr", ast[2])] if ast[2] is not None else []) + [("expr", ("mcall", ("id", "self"), "drop", []))], None)
+            scope = ([("self", t["self_ty"])] if has_self else []) + [(n, ty) for (n, ty) in plist]
+            recv = {"guard": ("Guard", nsf["Guard"])}
+            em = PEmitter(t["ns"], nsf[t["ns"]], recv, [], fn, scope, t.get("lets", {}))
+            term = em.do_block(ast, 2)
+            sig = " {ρ' : Type} (fuel : Nat)" + "".join(" (%s : %s)" % (lid(n), ty) for (n, ty) in scope)
+            for (hn, htext) in em.hoisted:
+                chunks.append((hn, htext, htext))
+            name = "%s.%s" % (t["ns"], lid(fn))
+            chunks.append((name, "/-- `%s::%s` (src/%s) -/\ndef %s%s :=\n  (m_fn (%s : PF _ _) : PF ρ' _)\n" % (t["ns"], fn, t["file"], name, sig, term), term))
+            report.append((t["ns"], fn, em.unsupported))
+    names = [c[0] for c in chunks]
+    deps = {n: [m for m in names if m != n and re.search(r"(?<![\w.])%s(?![\w.])" % re.escape(m), term)] for (n, _, term) in chunks}
+    done, order = set(), []
+
+    def visit(n, stack=()):
+        if n in done:
+            return
+        if n in stack:
+            raise SyntaxError("recursive functions: " + " -> ".join(stack + (n,)))
+        for m in deps[n]:
+            visit(m, stack + (n,))
+        done.add(n)
+        order.append(n)
+    for n in names:
+        visit(n)
+    text_of = {c[0]: c[1] for c in chunks}
+    body = ("/- GENERATED by tools/rs2lean.py from the Rust sources on every run -- do not edit. -/\n"
+            "import Orx.RS.Prog\nset_option linter.unusedVariables false\nnamespace Orx.GenP\nopen Orx Orx.RSP\n"
+            "open Orx.RS (AtomicH CounterSelf AtomicBoolH Next NextChunk Ord3)\n\n" +
+            "\n".join(text_of[n] for n in order) + "\nend Orx.GenP\n")
+    old = open(P_OUT).read() if os.path.exists(P_OUT) else None
+    if old != body:
+        open(P_OUT, "w").write(body)
+    return report
 
 
 def ns_functions():
@@ -920,6 +1174,7 @@ def main():
     old = open(OUT).read() if os.path.exists(OUT) else None
     if old != body:
         open(OUT, "w").write(body)
+    report += main_prog()
     bad = [(ns, fn, u) for (ns, fn, u) in report if u]
     print("rs2lean: %d functions translated, %d with unsupported constructs" % (len(report), len(bad)))
     for (ns, fn, u) in bad:
